@@ -264,7 +264,7 @@ def _mk_pipeline(family):
             names += ['{%s}m' % TNS + 'x', '{}m', '}m', '{urn:other}other']
         name = c.choose(names, 'requested_name')
         h = Harness(c, family, user_outcomes=['return'])
-        method, path, qs, body, ctype = requests_for(family)['valid']
+        method, path, qs, body, ctype = requests_for(family)['valid'][:5]
         if family == 'http':
             path = '/' + name
         elif family == 'json':
